@@ -172,6 +172,14 @@ func (m *Machine) intrinsic(fn *ssa.Function, args []Val, caller *frame) handler
 			}
 			return m.draws[i].D
 		}
+	case "vDrawN":
+		return func() Val {
+			i := argInt(args[0])
+			if i < 0 || i >= len(m.draws) {
+				m.rtPanic("vDrawN out of range")
+			}
+			return m.draws[i].N
+		}
 	case "vDrawNIs":
 		return func() Val {
 			i := argInt(args[0])
